@@ -55,8 +55,9 @@ type c17Op struct {
 }
 
 type c17World struct {
-	f  *flamego.Flame
-	op c17Op
+	f      *flamego.Flame
+	op     c17Op
+	double string // when set, the handler renders this format first and then op (same request)
 }
 
 func c17Build(o c17Opts) *c17World {
@@ -64,6 +65,19 @@ func c17Build(o c17Opts) *c17World {
 	w.f.Use(flamego.Renderer(flamego.RenderOptions{Charset: o.Charset, JSONIndent: o.JSONIndent, XMLIndent: o.XMLIndent}))
 	w.f.Use(func() {}) // some handler in between
 	w.f.Routes("/", "GET,HEAD,POST", func(c flamego.Context) {}, func(r flamego.Render) {
+		if w.double != "" {
+			// a first render of another format in the same request (its own response is not asserted)
+			switch w.double {
+			case "JSON":
+				r.JSON(299, map[string]int{"first": 1})
+			case "XML":
+				r.XML(299, c17Flat{A: "first"})
+			case "Binary":
+				r.Binary(299, []byte("first"))
+			case "PlainText":
+				r.PlainText(299, "first")
+			}
+		}
 		switch w.op.Kind {
 		case "JSON":
 			r.JSON(w.op.Status, w.op.Val)
@@ -319,10 +333,43 @@ func c17Run(r *core.Run) {
 							break
 						}
 					}
+					if bad == "" {
+						// one request that renders two different formats, then the plain render again: whatever the
+						// double render sends, it must leave nothing behind for later requests
+						for _, other := range []string{"JSON", "XML", "Binary", "PlainText"} {
+							if other == op.Kind {
+								continue
+							}
+							for _, first := range []string{other, op.Kind} {
+								second := op
+								if first == op.Kind {
+									second = c17Op{other, 200, map[string]interface{}{"JSON": map[string]int{"x": 1}, "XML": c17Flat{A: "x"}, "Binary": []byte("x"), "PlainText": "x"}[other]}
+								}
+								worlds[si].double = first
+								worlds[si].op = second
+								func() {
+									defer func() { _ = recover() }()
+									worlds[si].f.ServeHTTP(&c01Spy{hdr: http.Header{}}, newReq("GET", "/"))
+								}()
+								worlds[si].double = ""
+								l.Evals++
+								l.Transitions++
+								l.Traces++
+								if bad, kind = c17Judge(worlds[si], o, op); bad != "" {
+									bad = "after an earlier request that rendered " + first + " and then another format: " + bad
+									kind += "/after-double-render"
+									break
+								}
+							}
+							if bad != "" {
+								break
+							}
+						}
+					}
 				}
 				if bad != "" {
 					l.Class("mismatch")
-					l.Violate(kind+"/"+op.Kind, bad+fmt.Sprintf(" [options %+v, %s(%d, %s)]", o, op.Kind, op.Status, trunc(fmt.Sprintf("%#v", op.Val))), c17Case{o, op.Kind, op.Status, trunc(fmt.Sprintf("%#v", op.Val)), oi, seq && bad != "" && strings.HasPrefix(bad, "in the request sequence")})
+					l.Violate(kind+"/"+op.Kind, bad+fmt.Sprintf(" [options %+v, %s(%d, %s)]", o, op.Kind, op.Status, trunc(fmt.Sprintf("%#v", op.Val))), c17Case{o, op.Kind, op.Status, trunc(fmt.Sprintf("%#v", op.Val)), oi, seq && bad != "" && (strings.HasPrefix(bad, "in the request sequence") || strings.HasPrefix(bad, "after an earlier request"))})
 					continue
 				}
 				l.Class(fmt.Sprintf("%s:%dxx", op.Kind, op.Status/100))
@@ -382,6 +429,27 @@ func c17Replay(raw json.RawMessage) (bool, string) {
 				for _, m := range []string{"HEAD", "GET", "POST"} {
 					if bad, _ = c17JudgeM(w, c.Opts, ops[c.Index], m); bad != "" {
 						break
+					}
+				}
+				op := ops[c.Index]
+				for _, other := range []string{"JSON", "XML", "Binary", "PlainText"} {
+					if other == op.Kind || bad != "" {
+						continue
+					}
+					for _, first := range []string{other, op.Kind} {
+						second := op
+						if first == op.Kind {
+							second = c17Op{other, 200, map[string]interface{}{"JSON": map[string]int{"x": 1}, "XML": c17Flat{A: "x"}, "Binary": []byte("x"), "PlainText": "x"}[other]}
+						}
+						w.double, w.op = first, second
+						func() {
+							defer func() { _ = recover() }()
+							w.f.ServeHTTP(&c01Spy{hdr: http.Header{}}, newReq("GET", "/"))
+						}()
+						w.double = ""
+						if bad, _ = c17Judge(w, c.Opts, op); bad != "" {
+							break
+						}
 					}
 				}
 			}
